@@ -333,6 +333,8 @@ impl VideoState {
         object_line = object_height - object_line - 1;
       }
 
+      // 8x16 objects use an even/odd pair of tiles: bit 0 of the index is ignored
+      let tile_index = if self.object_double_height { tile_index & 0xfe } else { tile_index };
       let row_data = self.get_object_row(video_ram, tile_index, object_line as usize, flip_x);
 
       objects_found.push(
